@@ -53,9 +53,51 @@ pub fn run(r: &mut Report) {
         C { id: "non-normalized-dst-path-with-match-no-panic", ap: vec![("a/../f", 1)], bm: vec![("f", 1)], bp: vec![], rules: vec![mtch("*", None, Artifact::Products, None, "a"), ArtifactRule::Allow(vp("*"))], prules: allow_all(), expect: true },
         C { id: "non-normalized-path-no-panic", ap: vec![], bm: vec![("./f", 1)], bp: vec![("./f", 2)], rules: allow_all(), prules: allow_all(), expect: true },
     ];
+    // prefix boundaries of MATCH .. IN: a sibling whose name merely starts with the prefix text is not under the prefix
+    let mut cases = cases;
+    for (id, src_prefix, material, a_product, dst_prefix, expect) in [
+        ("match-in-src-sibling-with-suffix", Some("dist"), "dist-old/app", "app", None, false),
+        ("match-in-src-sibling-digit", Some("dist"), "dist2/app", "app", None, false),
+        ("match-in-src-file-sharing-prefix-text", Some("dist"), "distfile", "file", None, false),
+        ("match-in-src-proper-child", Some("dist"), "dist/app", "app", None, true),
+        ("match-in-src-nested-child", Some("dist"), "dist/sub/app", "sub/app", None, true),
+        ("match-in-dst-sibling-with-suffix", None, "app", "out-old/app", Some("out"), false),
+        ("match-in-dst-proper-child", None, "app", "out/app", Some("out"), true),
+        ("match-in-both", Some("dist"), "dist/app", "out/app", Some("out"), true),
+        ("match-in-both-wrong-dst", Some("dist"), "dist/app", "out2/app", Some("out"), false),
+    ] {
+        cases.push(C { id, ap: vec![(a_product, 1)], bm: vec![(material, 1)], bp: vec![], rules: vec![mtch("*", src_prefix, Artifact::Products, dst_prefix, "a"), dis()], prules: allow_all(), expect });
+    }
     for c in cases {
         let res = run_two(&c.ap, &c.bm, &c.bp, c.rules.clone(), c.prules.clone());
         r.case(c.id, json!({"a_products": c.ap, "b_materials": c.bm, "b_products": c.bp, "material_rules": format!("{:?}", c.rules), "product_rules": format!("{:?}", c.prules)}),
                if c.expect { "Ok" } else { "Err" }, format!("{:?}", res), res == Ok(c.expect));
+    }
+    multi_alg(r, 1, "match-multi-algorithm");
+}
+
+/// artifacts recorded with two hash algorithms that agree in one and differ in the other are different artifacts: MATCH must not
+/// consume them (C03), and the verdict must be the same on every run (C13: nothing may depend on which algorithm a map yields first)
+pub fn multi_alg(r: &mut Report, repetitions: usize, tag: &str) {
+    use in_toto::crypto::{HashAlgorithm, HashValue};
+    use in_toto::models::{LinkMetadataBuilder, TargetDescription};
+    let owner = key(1); let ka = key(2); let kb = key(3);
+    let td = |a: u8, b: u8| -> TargetDescription { [(HashAlgorithm::Sha256, HashValue::new(vec![a; 32])), (HashAlgorithm::Sha512, HashValue::new(vec![b; 64]))].into_iter().collect() };
+    for (id, dst, src, expect) in [("both-equal", td(1, 1), td(1, 1), true), ("sha256-equal-sha512-differs", td(1, 1), td(1, 2), false),
+                                   ("sha512-equal-sha256-differs", td(1, 1), td(2, 1), false), ("both-differ", td(1, 1), td(2, 2), false)] {
+        let d = tmpdir();
+        let mk = |name: &str, mats: Vec<(&str, TargetDescription)>, prods: Vec<(&str, TargetDescription)>| LinkMetadataBuilder::new().name(name.to_string())
+            .materials(mats.into_iter().map(|(p, t)| (vp(p), t)).collect()).products(prods.into_iter().map(|(p, t)| (vp(p), t)).collect()).build().unwrap();
+        write_link(d.path(), "a", ka.key_id(), &signed_link(&mk("a", vec![], vec![("foo", dst.clone())]), &[&ka]));
+        write_link(d.path(), "b", kb.key_id(), &signed_link(&mk("b", vec![("foo", src.clone())], vec![]), &[&kb]));
+        let l = layout(vec![step("a", 1, &[&ka], allow_all(), allow_all()), step("b", 1, &[&kb], vec![mtch("foo", None, Artifact::Products, None, "a"), dis()], allow_all())], vec![], &[&ka, &kb], 30);
+        let lay = signed_layout(&l, &[&owner]);
+        let mut seen = std::collections::BTreeSet::new();
+        for _ in 0..repetitions {
+            let res = no_panic(|| in_toto_verify(&lay, owner_keys(&[&owner]), d.path().to_str().unwrap(), None)).map(|r| r.is_ok());
+            seen.insert(format!("{:?}", res));
+        }
+        let want = format!("{:?}", Ok::<bool, String>(expect));
+        r.case(tag, json!({"digests": id, "repetitions": repetitions}), &format!("{} on every run", want), format!("{:?}", seen), seen.len() == 1 && seen.contains(&want));
     }
 }
